@@ -558,6 +558,35 @@ func (e *CrashEnv) CheckImage(ic imageCtx) {
 		}
 	}()
 	opts := e.C.options(e.CurVAt(snap.opi))
+	if ic.kind != "power" && ic.si%5 == 2 {
+		// the recovering session need not use the options of the one that died: a copy of the image is opened with
+		// Recover plus the other NewSegmentsVersion and EagerVersionMigrate (recovery must come before anything else
+		// reads the head)
+		alt := e.Img + ".alt"
+		restoreDir(alt, imgFiles)
+		ao := e.C.options(!e.CurVAt(snap.opi))
+		ao.Recover = true
+		ao.Version.EagerVersionMigrate = true
+		la, err := klevdb.Open(alt, ao)
+		if err != nil {
+			_ = os.RemoveAll(alt)
+			fail("open", "Open with Recover, the other NewSegmentsVersion and EagerVersionMigrate failed: %v", err)
+		}
+		gota, err := scanLog(la)
+		_ = la.Close()
+		_ = os.RemoveAll(alt)
+		if err != nil {
+			fail("scan", "reading the log recovered with the other NewSegmentsVersion and EagerVersionMigrate failed: %v", err)
+		}
+		ok := matchMsgs(op.after, gota)
+		for p := 0; p <= len(op.inflight) && !ok; p++ {
+			ok = matchMsgs(append(cloneMsgs(op.before), op.inflight[:p]...), gota)
+		}
+		if !ok {
+			fail("content", "the log recovered with the other NewSegmentsVersion and EagerVersionMigrate holds offsets %v; admissible: %v (+ a prefix of the batch %v) or %v", msgOffsets(gota), offsOf(op.before), offsOf(op.inflight), offsOf(op.after))
+		}
+		e.St.Inc("images_recovered_with_other_version_and_eager_migrate")
+	}
 	o := opts
 	o.Recover = true
 	l, err := klevdb.Open(e.Img, o)
